@@ -1884,10 +1884,13 @@ def correspondence(ctx):
                     "clock advanced before each call; value-class matrix histories (every listed attribute x every "
                     "kind of value its setter accepts, clearing values included, x attribute present / absent); "
                     "operations go through freshly fetched handles or through handles kept from earlier, and the "
-                    "stamps are read through all of them; seeded random histories (create / call / force / toggle / "
-                    "clock / delete / reopen) on real HDF5 files, the created_at and updated_at of ALL entities and the "
-                    "set of entity ids in the file compared after every operation. non-trivial = distinct "
-                    "(operation, outcome, population size)",
+                    "stamps are read through all of them; seeded random histories (create / copy of any copyable kind "
+                    "with what it owns / call / force / toggle / clock / delete / reopen) on real HDF5 files, the created_at and updated_at of ALL entities and the "
+                    "set of entity ids in the file compared after every operation; member sweep with the switch on: "
+                    "every public member (setter, deleter, getter, method) of every class of object reachable from the "
+                    "File, found by introspection, called in a scene of contrasting states - the stored stamps it changed "
+                    "must fit the outcomes + foreign names of the table entry Python's MRO reaches. non-trivial = distinct "
+                    "(operation, outcome, population size) / (class, member, accepted)",
             "samples": samples, "distribution": dist, "disagreements": disagreements, "exhaustive": False}
 
 
